@@ -81,7 +81,19 @@ theorem landmark_guard_translated (env : Env) (cwd : Path) (m : List (String × 
     (ext : OStr) (fs : FSb) (hp : fp.isStrOrPath = true) (h : (fs (targetKey env cwd fp)).isSome = true) :
     (genExportLandmarkFile env cwd m obj fp ext false fs).2 = fs ∧
       ∃ x, (genExportLandmarkFile env cwd m obj fp ext false fs).1 = .error x := by
-  rw [genExportLandmarkFile_eq]; exact landmark_guard env cwd m obj fp ext fs hp h
+  obtain ⟨gf, hgf⟩ := genExportLandmarkFile_eq
+  rw [hgf]; exact landmarkV_guard gf env cwd m obj fp ext fs hp h
+
+/-- … and IF the translated source is the guard-first variant (the repair), the error is OverwriteError for every
+object, extension and name — the clause of the property; for the code as it stood `landmark_coded_value_error`
+exhibits a dictionary aimed at an existing `x.pts` that gets ValueError instead -/
+theorem landmark_guard_translated_first
+    (hfirst : ∀ (env : Env) (cwd : Path) (m : List (String × String)) (obj : ExObj) (fp : Fp) (ext : OStr) (ow : Bool),
+      genExportLandmarkFile env cwd m obj fp ext ow = exportLandmarkFileSpec env cwd m obj fp ext ow)
+    (env : Env) (cwd : Path) (m : List (String × String)) (obj : ExObj) (fp : Fp)
+    (ext : OStr) (fs : FSb) (hp : fp.isStrOrPath = true) (h : (fs (targetKey env cwd fp)).isSome = true) :
+    genExportLandmarkFile env cwd m obj fp ext false fs = (.error .overwriteError, fs) := by
+  rw [hfirst]; exact landmark_guard_first env cwd m obj fp ext fs hp h
 
 /-- PROPERTY (guard; translated `export_video` → `_export_paths_only`): the exporter is handed the path that was
 checked -/
@@ -112,14 +124,20 @@ def runGenX (env : Env) (cwd : Path) : FSb → List XOp → List (Except Exc Uni
     let rest := runGenX env cwd r.2 ops
     (r.1 :: rest.1, rest.2)
 
-theorem runGen_eq (env : Env) (cwd : Path) (op : XOp) : runGen env cwd op = op.run env cwd := by
-  cases op <;> simp [runGen, XOp.run, genExportImage_eq, genExportLandmarkFile_eq, genExportPickle_eq, genExportVideo_eq]
+theorem runGen_eq : ∃ gf : Bool, ∀ (env : Env) (cwd : Path) (op : XOp), runGen env cwd op = op.run gf env cwd := by
+  obtain ⟨gf, hgf⟩ := genExportLandmarkFile_eq
+  refine ⟨gf, ?_⟩
+  intro env cwd op
+  cases op <;> simp [runGen, XOp.run, genExportImage_eq, hgf, genExportPickle_eq, genExportVideo_eq]
 
-theorem runGenX_eq (env : Env) (cwd : Path) : ∀ (ops : List XOp) (fs : FSb), runGenX env cwd fs ops = runX env cwd fs ops := by
-  intro ops
+theorem runGenX_eq : ∃ gf : Bool, ∀ (env : Env) (cwd : Path) (ops : List XOp) (fs : FSb),
+    runGenX env cwd fs ops = runX gf env cwd fs ops := by
+  obtain ⟨gf, hgf⟩ := runGen_eq
+  refine ⟨gf, ?_⟩
+  intro env cwd ops
   induction ops with
   | nil => intro fs; rfl
-  | cons op t ih => intro fs; simp only [runGenX, runX, runGen_eq, ih]
+  | cons op t ih => intro fs; simp only [runGenX, runX, hgf, ih]
 
 /-- PROPERTY (guard, every history, translated entry points).  Any sequence of export_image / export_landmark_file /
 export_pickle / export_video calls with str / Path arguments: a file that exists and is never targeted with
@@ -131,12 +149,14 @@ theorem export_history_translated (env : Env) (cwd : Path) (p : Path) (v : Blob)
     (runGenX env cwd fs ops).2 p = some v ∧
     ∀ x ∈ ops.zip (runGenX env cwd fs ops).1, targetKey env cwd x.1.fp = p →
       x.2 = .error .overwriteError ∨ (x.1.isLandmark = true ∧ ∃ e, x.2 = .error e) := by
-  rw [runGenX_eq]; exact history_never_clobbers env cwd p v ops fs hv hall
+  obtain ⟨gf, hgf⟩ := runGenX_eq
+  rw [hgf]; exact history_never_clobbers gf env cwd p v ops fs hv hall
 
 theorem export_history_frame_translated (env : Env) (cwd : Path) (q : Path) (ops : List XOp) (fs : FSb)
     (hall : ∀ op ∈ ops, op.fp.isStrOrPath = true ∧ targetKey env cwd op.fp ≠ q) :
     (runGenX env cwd fs ops).2 q = fs q := by
-  rw [runGenX_eq]; exact history_frame env cwd q ops fs hall
+  obtain ⟨gf, hgf⟩ := runGenX_eq
+  rw [hgf]; exact history_frame gf env cwd q ops fs hall
 
 /-! ### exporter and importer agree — translated parsers, live dictionaries -/
 
